@@ -91,6 +91,42 @@ class Module:
     def loc(self, node: ast.AST) -> str:
         return f"{self.path}:{getattr(node, 'lineno', 0)}"
 
+    def text_sources(self) -> list[tuple[str, ast.AST, ast.AST]]:
+        """(name, expression, statement) of every module-level text the module defines, whichever way it spells it: a constant
+        (`X = "…"`, `X = f"…"`, `X = Template("…")`) or a function whose body is one `return` of such an expression
+        (`def x_sql(catalog): return f"…"`), the parameters being the holes."""
+        out = [(k, v, self.const_stmts[k]) for k, v in self.consts.items()]
+        for name, fn in self.functions.items():
+            if "." in name:
+                continue
+            body = [b for b in fn.body if not (isinstance(b, ast.Expr) and isinstance(b.value, ast.Constant))]
+            if len(body) == 1 and isinstance(body[0], ast.Return) and body[0].value is not None:
+                out.append((name, body[0].value, fn))
+        return out
+
+    def sql_templates(self) -> list[tuple[str, str, ast.AST]]:
+        """(name, text with holes written `${expr}`, statement) for the texts of text_sources() that are literal enough to read."""
+        def text(e):
+            if isinstance(e, ast.Constant) and isinstance(e.value, str):
+                return e.value
+            if isinstance(e, ast.JoinedStr):
+                parts = []
+                for x in e.values:
+                    if isinstance(x, ast.Constant):
+                        parts.append(str(x.value))
+                    elif isinstance(x, ast.FormattedValue):
+                        parts.append("${" + ast.unparse(x.value) + "}")
+                return "".join(parts)
+            if isinstance(e, ast.Call) and e.args and getattr(e.func, "id", getattr(e.func, "attr", "")) == "Template":
+                return text(e.args[0])
+            return None
+        out = []
+        for name, e, stmt in self.text_sources():
+            t = text(e)
+            if t is not None:
+                out.append((name, t, stmt))
+        return out
+
 
 def _is_setter(fn: ast.FunctionDef | ast.AsyncFunctionDef) -> bool:
     return any(isinstance(d, ast.Attribute) and d.attr == "setter" for d in fn.decorator_list)
